@@ -118,6 +118,7 @@ func nearLimitSet(r *vh.Run, rng *vh.RNG, name string, v2 bool) {
 func mixedFullPool(r *vh.Run, rng *vh.RNG, name string) {
 	w := poolrig.NewWorld(r, rng, name, chainx.PoolNet(rng, 1, 1000))
 	g := &poolrig.Gen{W: w, Rng: rng}
+	g.Track = poolrig.NewTracker(w)
 	tip := 0
 	for i := 0; i < 16; i++ {
 		tip = w.GrowRandom(tip, 0)
@@ -150,6 +151,8 @@ func mixedFullPool(r *vh.Run, rng *vh.RNG, name string) {
 	for k := 0; k < 9 && !w.Panicked; k++ {
 		fee := types.Siacoins(uint32(10 + order[k]))
 		size := 1_850_000 + rng.Intn(60_000)
+		// the submission that crosses the line may itself be among the cheapest and go at once
+		g.Track.PoolFull = total+uint64(size) >= 10*cs.MaxBlockWeight()
 		if k%2 == 0 {
 			t := w.SpendV2(cs, free[4+k:5+k], 1, fee, size)
 			g.AddV2(w.TipID(), []types.V2Transaction{t}, nil, "fresh", -1, false)
@@ -170,6 +173,7 @@ func mixedFullPool(r *vh.Run, rng *vh.RNG, name string) {
 			break
 		}
 	}
+	g.Track.PoolFull = false
 	w.Refresh()
 	g.CheckEviction(all1, all2, "mixed full pool")
 	// the best-fee set is complete and can be looked up
@@ -188,13 +192,75 @@ func mixedFullPool(r *vh.Run, rng *vh.RNG, name string) {
 	w.Finish(w.Stats["evicted"] > 0, "mixed-full-pool")
 }
 
+// revertedIntoEmpty: the pool's v1 slice is EMPTY when a reorg reverts a tip block that carries a
+// fee-paying v1 transaction T which is still valid on the new branch.  T is re-offered by the lazy
+// re-validation; the FIRST pool call after the reorg is the lookup of T by id, which must agree with
+// the listing taken right afterwards.
+func revertedIntoEmpty(r *vh.Run, rng *vh.RNG, name string, v2PoolEmpty bool) {
+	w := poolrig.NewWorld(r, rng, name, chainx.PoolNet(rng, 1, 1000))
+	g := &poolrig.Gen{W: w, Rng: rng}
+	tip := 0
+	for i := 0; i < 4; i++ {
+		tip = w.GrowRandom(tip, 0)
+	}
+	w.Refresh()
+	cs := w.Node.CM.TipState()
+	free := w.FreeCoins()
+	if len(free) < 3 {
+		w.Finish(false, "reverted-into-empty-skipped")
+		return
+	}
+	if !v2PoolEmpty {
+		g.AddV2(w.TipID(), []types.V2Transaction{w.SpendV2(cs, free[2:3], 1, poolrig.Fee(9), 0)}, nil, "fresh", -1, false)
+	}
+	t1 := w.SpendV1(cs, free[0:1], 1, poolrig.Fee(21), 0)
+	t2 := w.SpendV2(cs, free[1:2], 1, poolrig.Fee(22), 0)
+	x, err := w.Tree.MineWith(rng, tip, []types.Transaction{t1}, []types.V2Transaction{t2}, 1)
+	if err != nil {
+		w.C.Oracle("generator-block-invalid", "X: %v", err)
+		w.Finish(false, "reverted-into-empty-skipped")
+		return
+	}
+	w.Submit(x)
+	w.Refresh()
+	empty := len(w.LastV1) == 0
+	// the heavier branch without them
+	y := tip
+	for i := 0; i < 2; i++ {
+		y = w.GrowRandom(y, 0)
+	}
+	reorged := w.TipID() == y
+	// first pool call: the lookup of the reverted block's v1 transaction
+	found1 := w.Get1(t1.ID(), "v1")
+	w.Refresh()
+	in1 := false
+	for _, t := range w.LastV1 {
+		if t.ID() == t1.ID() {
+			in1 = true
+		}
+	}
+	if found1 != in1 {
+		w.C.Oracle("pooltransaction-first-call-after-tip-change-disagrees-with-pool", "PoolTransaction(id of the reverted tip's v1 transaction) as the first pool call after the reorg reported found=%v, the pool listed right afterwards has it: %v (the v1 slice was empty before the reorg: %v)", found1, in1, empty)
+	}
+	if reorged && !in1 {
+		w.C.Oracle("reverted-transaction-not-reoffered", "the fee-paying v1 transaction of the reverted tip, still valid on the new branch, is not pooled after the reorg")
+	}
+	w.Get2(t2.ID(), "v2")
+	w.Get2(t1.ID(), "v1")
+	g.Lookups(true)
+	w.Finish(reorged && empty, "reverted-into-empty", fmt.Sprintf("reverted-into-empty-v2-pool-empty:%v", v2PoolEmpty))
+}
+
 func Run(r *vh.Run) {
-	r.Rule = "a case = one real chain.Manager on a growing fork tree (v2 allow height in {1,2,4}, require height allow+0..9 or never) driven by 40-80 generated steps: fresh v1/v2 sets (independent, parent/child, spending pooled outputs), partly and wholly known sets, sets conflicting with the pool at a random position k of n<=4, sets invalid at position k (bad signature / double spend inside the set / missing output), stale and unknown bases, lookups through both APIs (v1, v2, former, unknown ids), aliasing probes, blocks confirming pool prefixes, fork blocks and reorgs; plus mixed full-pool cases: a pool of both kinds filled to the 20M eviction line - the v2 slice starts with a two-transaction set paying the best fee rate, the v1 slice with the two cheapest transactions - after which only the cheapest transactions may be gone and the best-fee set is looked up; plus near-limit cases: nine 1.9M-weight transactions (17M of the 20M pool limit), then ONE set of four new transactions that crosses the limit at its second member (the set has the highest fee rates, so the eviction at the next query spares it): every member must be pooled; v1 / v2. non-trivial = at least one accepted and one rejected submission; distinct = distinct op lists"
+	r.Rule = "a case = one real chain.Manager on a growing fork tree (v2 allow height in {1,2,4}, require height allow+0..9 or never) driven by 40-80 generated steps: fresh v1/v2 sets (independent, parent/child, spending pooled outputs), partly and wholly known sets, sets conflicting with the pool at a random position k of n<=4, sets invalid at position k (bad signature / double spend inside the set / missing output), stale and unknown bases, lookups through both APIs (v1, v2, former, unknown ids), aliasing probes, blocks confirming pool prefixes, fork blocks and reorgs; plus reverted-into-empty cases: a reorg reverts a tip carrying a fee-paying v1 (and v2) transaction into a pool whose v1 slice is empty, and the first pool call is the lookup of that transaction by id; plus mixed full-pool cases: a pool of both kinds filled to the 20M eviction line - the v2 slice starts with a two-transaction set paying the best fee rate, the v1 slice with the two cheapest transactions - after which only the cheapest transactions may be gone and the best-fee set is looked up; plus near-limit cases: nine 1.9M-weight transactions (17M of the 20M pool limit), then ONE set of four new transactions that crosses the limit at its second member (the set has the highest fee rates, so the eviction at the next query spares it): every member must be pooled; v1 / v2. non-trivial = at least one accepted and one rejected submission; distinct = distinct op lists"
 	rng := vh.NewRNG(r.Seed).Fork() // seeds are consecutive stream positions of splitmix64; fork to decorrelate them
 	n := r.Pick(250, 1500)
 	for i := 0; i < n; i++ {
 		crng := rng.Fork()
 		runCase(r, crng, fmt.Sprintf("c%d", i), r.Pick(50, 90))
+	}
+	for i := 0; i < r.Pick(2, 6); i++ {
+		revertedIntoEmpty(r, rng.Fork(), fmt.Sprintf("e%d", i), i%2 == 0)
 	}
 	for i := 0; i < r.Pick(1, 4); i++ {
 		mixedFullPool(r, rng.Fork(), fmt.Sprintf("m%d", i))
